@@ -58,6 +58,13 @@ def build_and_audit(prop, info, thorough, log):
     log.append(out[-2000:])
     if rc != 0:
         broken.append('translator gen_tables.py failed')
+    for gen in ('gen_routes.py', 'gen_loops.py'):
+        gp = os.path.join(VERIF, 'harness', gen)
+        if os.path.exists(gp):
+            rc, out = sh(['/venv/bin/python', gp], cwd=VERIF)
+            log.append(out[-2000:])
+            if rc != 0:
+                broken.append('translator %s failed' % gen)
     # 2. build the driver (models + specs + glue) and the property's proof module
     rc, out = sh(['lake', 'build', 'driver'], cwd=LEAN_DIR)
     if rc != 0:
